@@ -223,3 +223,44 @@ def run_escape_closer(P, rep, rule="R-BLOCKBODY"):
     else:
         rep.viol(rule, "escape_liquid closer", P.where(fn),
                  "an end-tag look-alike that carries arguments closes the block: markup-looking text inside raw would end the raw body early")
+
+
+def run_filter_arity(P, rep, rule="R-ARITY.filters"):
+    """Derive-generated argument binders reject excess positional and unknown keyword arguments:
+    every FilterParameters::from_args and every parameterless ParseFilter::parse contains both traps
+    (an extra positional.next() and a keyword.next(), each leading to an Error)."""
+    from collections import Counter
+    FP = "liquid_core::parser::filter::FilterParameters"
+    PF = "liquid_core::parser::filter::ParseFilter"
+    n1 = n2 = 0
+    for fn in sorted(P.fns.values(), key=lambda f: f.key):
+        if fn.crate not in LIB_CRATES or not fn.impl:
+            continue
+        tr = fn.impl.get("trait")
+        if tr == FP and fn.item_name == "from_args":
+            n1 += 1
+            c = Counter(t["f"]["id"].rsplit("::", 1)[1] for bi, t in P.calls(fn) if t.get("f"))
+            tj = P.ty(fn.crate, fn.impl["self"])
+            adt = P.adts.get(tj.get("id")) if tj["k"] == "adt" else None
+            nf = len(adt["variants"][0]["fields"]) if adt else 0
+            site = fn.key.split(" as ")[0].lstrip("<").rsplit("::", 1)[-1] + "::from_args"
+            if c["with_msg"] < 2 or c["next"] < nf + 2:
+                rep.viol(rule, site, P.where(fn),
+                         "argument binder has %d error exits and %d next() calls for %d parameters: the trap for excess positional or unknown keyword arguments is missing"
+                         % (c["with_msg"], c["next"], nf))
+            else:
+                rep.ok(rule, site, P.where(fn), "%d parameters, next() x%d, both traps present" % (nf, c["next"]))
+        elif tr == PF and fn.item_name == "parse":
+            c = Counter(t["f"]["id"].rsplit("::", 1)[1] for bi, t in P.calls(fn) if t.get("f"))
+            site = fn.key.split(" as ")[0].lstrip("<").rsplit("::", 1)[-1] + "::parse"
+            if c["from_args"]:
+                n2 += 1
+                rep.ok(rule, site, P.where(fn), "delegates to FilterParameters::from_args")
+            else:
+                n2 += 1
+                if c["next"] < 2 or c["with_msg"] < 2:
+                    rep.viol(rule, site, P.where(fn), "a parameterless filter accepts arguments silently (next() x%d, error exits %d)" % (c["next"], c["with_msg"]))
+                else:
+                    rep.ok(rule, site, P.where(fn), "rejects positional and keyword arguments")
+    rep.analysed[rule + ".from_args"] = n1
+    rep.analysed[rule + ".parse"] = n2
